@@ -197,3 +197,96 @@ func TestC04SharedIDs(t *testing.T) {
 			"contended-ids", "engine:"+cfg.Engine)
 	})
 }
+
+// TestC04ReaderSelfConsistent: while writers add and delete documents, clients keep taking
+// index readers; each reader's DocCount must equal the number of documents the same reader
+// enumerates (a reader shows the index "exactly as it was after some prefix" - its count and
+// its contents cannot come from two different moments).
+func TestC04ReaderSelfConsistent(t *testing.T) {
+	ev := Ev("C04")
+	checkPropN(t, "C04", 24, func(t *rapid.T) {
+		cfg := GenConfig(t, "cfg", []string{EngUDGtreap, EngUDGtreap, EngUDBolt, EngUDMoss, EngUDLevel, EngScorchMem, EngScorchDisk})
+		nw := rapid.IntRange(1, 3).Draw(t, "nwriters")
+		nc := rapid.IntRange(1, 3).Draw(t, "nclients")
+		ncalls := rapid.IntRange(20, 120).Draw(t, "ncalls")
+		batchy := rapid.Bool().Draw(t, "batches")
+		procs := rapid.SampledFrom([]int{2, 4, 16}).Draw(t, "gomaxprocs")
+		old := runtime.GOMAXPROCS(procs)
+		defer runtime.GOMAXPROCS(old)
+		idx, err := cfg.Create(TempDir(t), WorldMapping())
+		if err != nil {
+			t.Fatalf("create: %v", err)
+		}
+		defer idx.Close()
+		adv, _ := idx.Advanced()
+		var wg, cg sync.WaitGroup
+		stop := make(chan struct{})
+		problems := make(chan string, nc+nw)
+		for w := 0; w < nw; w++ {
+			wg.Add(1)
+			go func(w int) {
+				defer wg.Done()
+				// each writer adds and removes its own ids, so the count keeps moving
+				for j := 0; j < ncalls; j++ {
+					id := fmt.Sprintf("r%d-%d", w, j%7)
+					var err error
+					switch {
+					case j%3 == 2:
+						err = idx.Delete(id)
+					case batchy:
+						b := idx.NewBatch()
+						_ = b.Index(id, map[string]interface{}{"t": "a b"})
+						_ = b.Index(fmt.Sprintf("r%d-x%d", w, j%5), map[string]interface{}{"t": "x"})
+						err = idx.Batch(b)
+					default:
+						err = idx.Index(id, map[string]interface{}{"t": "a b"})
+					}
+					if err != nil {
+						problems <- fmt.Sprintf("writer %d: %v", w, err)
+						return
+					}
+				}
+			}(w)
+		}
+		readers := make([]int, nc)
+		for c := 0; c < nc; c++ {
+			cg.Add(1)
+			go func(c int) {
+				defer cg.Done()
+				for {
+					select {
+					case <-stop:
+						return
+					default:
+					}
+					r, err := adv.Reader()
+					if err != nil {
+						problems <- "Reader: " + err.Error()
+						return
+					}
+					_, problem := readerDigest(r, nil, nil)
+					r.Close()
+					readers[c]++
+					if problem != "" {
+						problems <- fmt.Sprintf("client %d, reader #%d: %s", c, readers[c], problem)
+						return
+					}
+				}
+			}(c)
+		}
+		wg.Wait()
+		close(stop)
+		cg.Wait()
+		close(problems)
+		for p := range problems {
+			t.Fatalf("config %s, %d writers x %d calls (batches=%v), %d clients, GOMAXPROCS=%d: %s", cfg, nw, ncalls, batchy, nc, procs, p)
+		}
+		total := 0
+		for _, n := range readers {
+			total += n
+		}
+		ev.Case(total >= 10, map[string]interface{}{"cfg": cfg, "nw": nw, "nc": nc, "ncalls": ncalls, "batchy": batchy, "procs": procs},
+			map[string]interface{}{"cfg": cfg, "writers": nw, "clients": nc, "calls_per_writer": ncalls, "readers_taken_during_the_writes": total, "gomaxprocs": procs},
+			"reader-self-consistency", "engine:"+cfg.Engine)
+	})
+}
